@@ -436,7 +436,13 @@ func (s *LinearState) FindCachedRules(ctx *Context, event Map) (map[string]*Rule
 		} else {
 			rule, err := RuleFromMap(ctx, r)
 			if err != nil {
-				return nil, err
+				// Something that is stored like a rule (a
+				// fact with a 'rule' that has a 'when') but
+				// is none.  It does not fire; that is no
+				// reason to keep the rules that match from
+				// firing.
+				Log(WARN, ctx, "LinearState.FindCachedRules", "id", id, "notARule", err)
+				continue
 			}
 			// The rule is shared from here on (see 'FindRules.Do'),
 			// so it gets its id before anybody else can see it.
